@@ -567,3 +567,60 @@ class CycLogFn(CycFn):
         if oi is not None and oi[1] == 'iterSwapper':
             acc.update(('swa', 'swb', 'swn'))
         return super().used_names(n, acc)
+
+
+# ======================================================================================================================
+# grow round 3: the entry guards of HashSorter::pvFindHash / pvIsSorted (fix 2715474)
+def _leading_guards(fn, body):
+    """the leading `if (cond) return value;` statements of a function body: [(cond text, returned bool literal)]"""
+    out = []
+    for st in body.get('inner', []):
+        if st.get('kind') != 'IfStmt' or len(st.get('inner', [])) != 2:
+            break
+        th = st['inner'][1]
+        while th.get('kind') == 'CompoundStmt' and len(th.get('inner', [])) == 1:
+            th = th['inner'][0]
+        if th.get('kind') != 'ReturnStmt':
+            break
+        lits = []
+        def walk(n):
+            if isinstance(n, dict):
+                if n.get('kind') == 'CXXBoolLiteralExpr':
+                    lits.append(bool(n['value']))
+                for c in n.get('inner', []):
+                    walk(c)
+        walk(th)
+        if len(lits) != 1:
+            raise TranslationError('guard return value has %d boolean literals' % len(lits))
+        out.append((fn.e(st['inner'][0]), 'true' if lits[0] else 'false'))
+    return out
+
+
+def translate_guards(repo='/repo', tu=None):
+    """Gen_HsGuards.v: for pvFindHash and pvIsSorted, the disjunction of the leading early-return conditions (false if the
+    function has none) and the boolean they return (found flag / sortedness)."""
+    tu = tu or os.path.join(os.path.dirname(os.path.abspath(__file__)), 'inst_hs.cpp')
+    cfg = {'tu': tu, 'filter': 'HashSorter', 'includes': [os.path.join(repo, 'include')]}
+    objs = cxx2coq.load_objs(cxx2coq.dump_ast(cfg, repo))
+    out = []
+    for name in ('pvFindHash', 'pvIsSorted'):
+        ds = [d for d in _methods(objs, name) if any(c.get('kind') == 'TemplateArgument' for c in d.get('inner', []))]
+        if len(ds) != 1:
+            raise TranslationError('expected one instantiated HashSorter::%s, found %d' % (name, len(ds)))
+        d = dict(ds[0]); d.pop('storageClass', None)
+        cfgf = {'name': 'Gen_HsGuards', 'fields': {}, 'functions': [],
+                'functor_params': {name: {'iterHashFunc': 'skip', 'equalFunc': 'skip'}}, 'ret_types': {name: 'bool'}}
+        f = RxFn(cxx2coq.Ctx(cfgf), d, name)
+        body = [c for c in d['inner'] if c.get('kind') == 'CompoundStmt'][0]
+        try:
+            gs = _leading_guards(f, body)
+        except TranslationError as ex:
+            raise TranslationError('%s entry guard: %s' % (name, ex))
+        if len(set(v for _, v in gs)) > 1:
+            raise TranslationError('%s: leading guards return different values' % name)
+        cond = ' || '.join('(%s)' % c for c, _ in gs) if gs else 'false'
+        val = gs[0][1] if gs else 'false'
+        out.append('(* %d leading `if (...) return ...;` statement(s) before the first dereference of begin *)\n'
+                   'Definition %s_returns_early (count : Z) : bool := %s.\nDefinition %s_early_value : bool := %s.' % (len(gs), name, cond, name, val))
+    return ('(* GENERATED by props/C17/sel2coq.py (on tools/cxx2coq.py) from HashSorter.h: entry guards of pvFindHash / pvIsSorted -- do not edit *)\n\n'
+            'From Coq Require Import ZArith Bool List.\nFrom MomoCommon Require Import GenPrelude.\nLocal Open Scope Z_scope.\n\n' + '\n\n'.join(out) + '\n')
